@@ -64,14 +64,41 @@ def fingerprint(model, salt: str = "fp") -> str:
     number = expr.xreplace(values).doit()
     number = sp.N(number, 30)
     if number.free_symbols or not number.is_number:
-        return f"non-numeric:{str(number)[:80]}"
+        return f"non-numeric:{sorted(str(x) for x in number.free_symbols)[:6]}"
     re, im = number.as_real_imag()
-    return f"{sp.N(re, 18)}|{sp.N(im, 18)}"
+    return f"{sp.N(re, 25)}|{sp.N(im, 25)}"
+
+
+CHEAP_DYNAMICS = {"non_dynamic", "bw", "probeA", "probeB", "probeC", "bw_ffonly", "non_dynamic_ff"}
+
+
+def fingerprint_is_cheap(key: dict) -> bool:
+    """Decided from the configuration alone (never from a clock): unaligned, simple lineshapes."""
+    return key["alignment"] == "NoAlignment" and set(key["dynamics"]) <= CHEAP_DYNAMICS
 
 
 # --------------------------------------------------------------------------- #
 # one segment = one simulated process
 # --------------------------------------------------------------------------- #
+def hash_inconsistency(obj) -> str | None:
+    """a == b must imply hash(a) == hash(b): compare a loaded expression with a node-by-node
+    reconstruction of itself made in this process."""
+    import sympy as sp  # noqa: PLC0415
+
+    if not isinstance(obj, sp.Basic):
+        return None
+    try:
+        rebuilt = canon.rebuild(obj)
+        if rebuilt == obj and hash(rebuilt) != hash(obj):
+            return f"{type(obj).__name__}: equal to its own reconstruction but hash differs"
+        probe = {obj: 1}
+        if rebuilt == obj and rebuilt not in probe:
+            return f"{type(obj).__name__}: dict lookup with an equal key fails"
+    except Exception:  # noqa: BLE001
+        return None
+    return None
+
+
 def run_segment(ops: list, disk: str, segment: int = 0) -> dict:  # noqa: C901, PLR0912, PLR0915
     import ampform  # noqa: PLC0415
 
@@ -199,8 +226,10 @@ def run_segment(ops: list, disk: str, segment: int = 0) -> dict:  # noqa: C901, 
                     dumped[op["file"]] = model
                     ev.update(file=op["file"], digests=zc.model_digests(model), size=os.path.getsize(path),
                               key=zc.config_key(b["builder"], b["rx"]))
-                    if op.get("fingerprint"):
+                    if op.get("fingerprint") and fingerprint_is_cheap(ev["key"]):
                         ev["fingerprint"] = fingerprint(model)
+                        with open(path + ".fp", "w") as f:
+                            f.write("fingerprint requested")
             elif kind == "load":
                 path = os.path.join(disk, op["file"])
                 if not os.path.exists(path):
@@ -214,7 +243,14 @@ def run_segment(ops: list, disk: str, segment: int = 0) -> dict:  # noqa: C901, 
                         ev["load_error"] = f"{type(exc).__name__}: {str(exc)[:120]}"
                     else:
                         ev["digests"] = zc.model_digests(loaded)
-                        if op.get("fingerprint"):
+                        for part in [loaded.intensity, *list(loaded.amplitudes.values())[:3],
+                                     *list(loaded.kinematic_variables.values())[:3],
+                                     *list(loaded.parameter_defaults)[:3]]:
+                            bad = hash_inconsistency(part)
+                            if bad:
+                                ev["hash_fail"] = bad
+                                break
+                        if op.get("fingerprint") and os.path.exists(path + ".fp"):
                             ev["fingerprint"] = fingerprint(loaded)
                         original = dumped.get(op["file"])
                         if original is not None:
@@ -251,6 +287,9 @@ def run_segment(ops: list, disk: str, segment: int = 0) -> dict:  # noqa: C901, 
                     else:
                         ev["digest_plain"] = canon.digest(loaded)
                         ev["digest_n"] = canon.ndigest(loaded)
+                        bad = hash_inconsistency(loaded)
+                        if bad:
+                            ev["hash_fail"] = bad
                         entry = dumped.get(op["file"])
                         if entry is not None:
                             ev["same_process"] = True
